@@ -493,3 +493,12 @@ Theorem c12_retry_loop_without_else_refuted :
   retry_ok (class_proto obj_retry_swallow RKbd) = true /\
   retry_ok (class_proto obj_retry_swallow (RSub 1)) = true.
 Proof. exact obj_retry_swallow_refuted. Qed.
+
+(** The entry prologue of [make_tempfile] (what it does before mkdir and the temp-name loop): inert whenever the object
+    holds no open temp file — today's; keyed on the temp name that nothing resets (seeded c12_5) it removes tmp_N on
+    re-entry, which by then may be another writer's file. *)
+Theorem c12_entry_prologue_keyed_on_stale_name_refuted :
+  entry_inert obj_fixed prologue_fixed = true /\ entry_inert obj_fixed prologue_stale_name = false /\
+  exec prologue_stale_name None (env_of (o_attrs obj_fixed) [Some VNone; Some VTName; Some VDest] false) inert_k
+    = XUnlink (XDone false) (XDone true) (XDone false).
+Proof. exact entry_prologue_examples. Qed.
